@@ -30,8 +30,8 @@ PROP_KINDS = {
     "C13": [1], "C14": [5], "C15": [3], "C16": [6, 7], "C17": [6, 7, 8, 9], "C18": ALL, "C19": ALL,
     "C20": [7, 8],
 }
-PROP_FILES = {  # Coq files holding the property's theorems
-    "C06": ["ConcProps"], "C07": ["ConcProps"], "C08": ["Props_C08"],
+PROP_FILES = {  # Coq files holding the property's theorems (C06/C07: generated per run, see conc_check.py)
+    "C06": ["ConcProps"], "C07": ["ConcProps"],
 }
 ALLOWED_AXIOMS = set()   # none: every property theorem must be closed under the global context
 FORBIDDEN = re.compile(r"\b(Admitted|admit|Axiom|Axioms|Parameter|Parameters|Conjecture|Hypothesis|Variable)\b|Unset\s+Guard|bypass_check|type-in-type|impredicative-set|Admit Obligations")
@@ -534,6 +534,11 @@ def decide(prop, res, rundir):
     for kid, hits in sorted(known.items()):
         print("KNOWN-FINDING: property=%s %s (%d occurrence(s) in this run, e.g. %s)" % (prop, kid, len(hits), hits[0][:160]))
     nviol = 0
+    if res.get("conc_violations"):
+        cv = res["conc_violations"][0]
+        rp = write_replay(prop, cv.get("kind", "conc"), cv)
+        print("VIOLATION property=%s replay=%s" % (prop, os.path.relpath(rp, ROOT)))
+        return 1
     if res["violations"]:
         v = res["violations"][0]
         # isolate the failing case and shrink it
